@@ -116,7 +116,9 @@ def generate(rng, tier):
     cases = []
     n = 300 if tier == "quick" else 3000
     for i in range(n):
-        p = buildprog.gen_prog(rng, cfg=CFGS[i % 4], small=(i % 2 == 0))
+        # (no nested segment that skips a section lying inside its range: the loader assigns membership by range, so the
+        #  reloaded object would list that section too - such an object's segments and sections are not mutually consistent)
+        p = buildprog.gen_prog(rng, cfg=CFGS[i % 4], small=(i % 2 == 0), nested_focus=(i % 10 == 7), allow_skipping=False)
         lines = p.lines + ["save", "save"]
         # load the saved file into a second object and save again: the harness cannot pipe bytes between ops, so the
         # generator asks the *model-independent* python to do it in a second pass (see post_run); here: placeholder
